@@ -140,19 +140,21 @@ type Component struct {
 }
 
 type Replay struct {
-	Property  string          `json:"property"`
-	Seed      uint64          `json:"seed"`
-	RunIndex  int             `json:"run_index"`
-	Tier      string          `json:"tier"`
-	Class     string          `json:"violation_class"`
-	Detail    string          `json:"detail"`
-	Scenario  json.RawMessage `json:"scenario"`
-	Choices   string          `json:"choices"`
-	TraceHash uint64          `json:"trace_hash"`
-	Log       []string        `json:"event_log"`
-	LiftInfo  [][2]string     `json:"lifted_sources"`
-	Minimised bool            `json:"minimised"`
-	OrigSteps int             `json:"steps_before_minimisation"`
+	Property    string          `json:"property"`
+	Seed        uint64          `json:"seed"`
+	RunIndex    int             `json:"run_index"`
+	Tier        string          `json:"tier"`
+	Class       string          `json:"violation_class"`
+	Detail      string          `json:"detail"`
+	Scenario    json.RawMessage `json:"scenario"`
+	Choices     string          `json:"choices"`
+	TraceHash   uint64          `json:"trace_hash"`
+	Log         []string        `json:"event_log"`
+	LiftInfo    [][2]string     `json:"lifted_sources"`
+	Minimised   bool            `json:"minimised"`
+	CrashWindow int             `json:"crash_window,omitempty"` // process-crash: number of preceding runs of the same worker to re-execute
+	CrashStride int             `json:"crash_stride,omitempty"`
+	OrigSteps   int             `json:"steps_before_minimisation"`
 }
 
 func EncodeChoices(cs []sim.Choice) string {
@@ -506,16 +508,25 @@ func batch(p Prop, seed uint64, tier string, count int, budget float64, workers 
 		}
 	}
 	crashExit := 0
+	var unrepro []int
 	for _, idx := range crashes {
-		if !crashesAgain(self, seed, tier, idx) {
-			fmt.Fprintf(os.Stderr, "INFRASTRUCTURE: a worker process crashed in run %d but the crash does not repeat in a fresh process\n", idx)
-			return 2
+		detail := "the code under test brought the process down (memory fault or fatal runtime error) in this run; replay re-executes run " + strconv.Itoa(idx) + " of batch seed " + strconv.FormatUint(seed, 10) + " in a child process"
+		window := 0
+		if !crashesAgain(self, seed, tier, idx, 0, 0) {
+			// not this run alone: memory damaged by an earlier run of the same
+			// worker may have surfaced here.  Re-execute the worker's last runs.
+			window = 200
+			if !crashesAgain(self, seed, tier, idx, workers, window) {
+				unrepro = append(unrepro, idx)
+				continue
+			}
+			detail = fmt.Sprintf("the code under test damaged memory and brought the process down: re-executing the worker's %d runs up to run %d (stride %d) of batch seed %d in a child process crashes again; run %d alone does not", window, idx, workers, seed, idx)
 		}
 		rs := sim.RunSeed(seed, uint64(idx))
 		ch := sim.NewChoices(rs)
 		scb, _ := json.Marshal(p.Generate(ch.Rng(), tier, idx))
 		rp := Replay{Property: p.ID(), Seed: seed, RunIndex: idx, Tier: tier, Class: "process-crash", Scenario: scb, LiftInfo: p.Describe().LiftInfo,
-			Detail: "the code under test brought the process down (memory fault or fatal runtime error) in this run; replay re-executes run " + strconv.Itoa(idx) + " of batch seed " + strconv.FormatUint(seed, 10) + " in a child process"}
+			Detail: detail, CrashWindow: window, CrashStride: workers}
 		os.MkdirAll(filepath.Join(verifDir, "replays"), 0o755)
 		path := filepath.Join(verifDir, "replays", fmt.Sprintf("%s-%d-%d-crash.json", p.ID(), seed, idx))
 		b, _ := json.MarshalIndent(rp, "", " ")
@@ -652,6 +663,13 @@ func batch(p Prop, seed uint64, tier string, count int, budget float64, workers 
 		_ = n
 	}
 
+	if len(unrepro) > 0 {
+		if exit == 0 {
+			fmt.Fprintf(os.Stderr, "INFRASTRUCTURE: worker process(es) crashed in run(s) %v but neither those runs nor the runs before them crash a fresh process, and nothing else was found\n", unrepro)
+			return 2
+		}
+		fmt.Printf("note: worker process(es) also crashed in run(s) %v without the crash repeating in a fresh process (memory damage is not always replayable); the violations above are\n", unrepro)
+	}
 	// evidence
 	d := p.Describe()
 	wall := time.Since(start).Seconds()
@@ -689,29 +707,29 @@ func batch(p Prop, seed uint64, tier string, count int, budget float64, workers 
 		}
 	}
 	cov := map[string]any{
-		"evaluations":                 tot.Runs,
-		"distinct_nontrivial":         len(hashes),
+		"evaluations":                        tot.Runs,
+		"distinct_nontrivial":                len(hashes),
 		"distinct_nontrivial_is_lower_bound": tot.HashCapped,
-		"nontrivial_runs":             tot.Nontrivial,
-		"rule":                        d.Rule,
-		"samples":                     samples,
-		"runs_per_hour":               int(float64(tot.Runs) / exploreWall * 3600),
-		"seeds":                       fmt.Sprintf("run i uses seed RunSeed(VERIF_SEED=%d, i), i in [0,%d)", seed, tot.Runs),
-		"sim_steps":                   tot.Steps,
-		"sim_time_units":              tot.SimTime,
-		"distinct_end_states":         len(states),
-		"faults":                      faults,
-		"probes":                      tot.Probes,
-		"probes_stuck_at_zero":        stuck,
-		"oracle_counters":             tot.Counters,
-		"observations":                tot.Obs,
-		"components":                  d.Components,
-		"lifted_sources_sha256":       d.LiftInfo,
-		"violation_runs_by_class":     tot.VioCount,
-		"violations_examined":         reported,
-		"known_finding_runs":          tot.KnownCount,
-		"workers":                     workers,
-		"exploration_wall_s":          exploreWall,
+		"nontrivial_runs":                    tot.Nontrivial,
+		"rule":                               d.Rule,
+		"samples":                            samples,
+		"runs_per_hour":                      int(float64(tot.Runs) / exploreWall * 3600),
+		"seeds":                              fmt.Sprintf("run i uses seed RunSeed(VERIF_SEED=%d, i), i in [0,%d)", seed, tot.Runs),
+		"sim_steps":                          tot.Steps,
+		"sim_time_units":                     tot.SimTime,
+		"distinct_end_states":                len(states),
+		"faults":                             faults,
+		"probes":                             tot.Probes,
+		"probes_stuck_at_zero":               stuck,
+		"oracle_counters":                    tot.Counters,
+		"observations":                       tot.Obs,
+		"components":                         d.Components,
+		"lifted_sources_sha256":              d.LiftInfo,
+		"violation_runs_by_class":            tot.VioCount,
+		"violations_examined":                reported,
+		"known_finding_runs":                 tot.KnownCount,
+		"workers":                            workers,
+		"exploration_wall_s":                 exploreWall,
 	}
 	ev := map[string]any{
 		"property_id": p.ID(), "tier": tier, "seed": int64(seed), "level": "exploration", "coverage": cov,
@@ -737,8 +755,17 @@ func tail(s string, n int) string {
 
 // crashesAgain re-executes one run of a batch in a child process and reports
 // whether the Go runtime kills it again.
-func crashesAgain(self string, seed uint64, tier string, idx int) bool {
-	cmd := exec.Command(self, "-one", strconv.Itoa(idx), "-tier", tier, "-verif", verifDir)
+func crashesAgain(self string, seed uint64, tier string, idx, stride, window int) bool {
+	var cmd *exec.Cmd
+	if window == 0 {
+		cmd = exec.Command(self, "-one", strconv.Itoa(idx), "-tier", tier, "-verif", verifDir)
+	} else {
+		from := idx - (window-1)*stride
+		for from < 0 {
+			from += stride
+		}
+		cmd = exec.Command(self, "-worker", "-tier", tier, "-from", strconv.Itoa(from), "-stride", strconv.Itoa(stride), "-count", strconv.Itoa(idx+1), "-verif", verifDir)
+	}
 	cmd.Env = append(os.Environ(), "VERIF_SEED="+strconv.FormatUint(seed, 10))
 	out, err := cmd.CombinedOutput()
 	if err == nil {
@@ -761,7 +788,7 @@ func doReplay(p Prop, path string) int {
 	}
 	if rp.Class == "process-crash" {
 		self, _ := os.Executable()
-		if crashesAgain(self, rp.Seed, rp.Tier, rp.RunIndex) {
+		if crashesAgain(self, rp.Seed, rp.Tier, rp.RunIndex, rp.CrashStride, rp.CrashWindow) {
 			fmt.Printf("VIOLATION property=%s replay=%s\n  class=process-crash: %s\n", p.ID(), path, rp.Detail)
 			return 1
 		}
